@@ -499,12 +499,28 @@ func (c *Ctx) ruleHandlerPerMessage(rr *RuleRep) {
 	muF := c.structField("BaseClient", "mu")
 	n := 0
 	eachInstr(m.F, func(in ssa.Instruction) {
-		cc := callCommon(in)
-		if cc == nil || !cc.IsInvoke() || cc.Method.Name() != "Serve" {
+		eff, isEff := c.serveEff(in)
+		if !isEff {
 			return
 		}
 		n++
 		key := "serve/handler-load"
+		if eff.Helper != nil {
+			// the handler is loaded inside the helper on every call: check it there
+			g := eff.Helper
+			ld, ok := eff.Inner.Call.Value.(*ssa.UnOp)
+			base, isH := isLoadOfField(eff.Inner.Call.Value, hF)
+			switch {
+			case !ok || !isH || len(g.Params) == 0 || c.Resolve(base) != ssa.Value(g.Params[0]) || c.Resolve(eff.Call.Call.Args[0]) != ssa.Value(m.F.Params[0]):
+				rr.Bad(key, in.Pos(), "the handler invoked by %s is not loaded from this client's handler field", FuncName(g))
+			case !c.heldAt(g, ld, g.Params[0], muF, "r"):
+				rr.Bad(key, ld.Pos(), "the handler field is read outside c.mu in %s", FuncName(g))
+			default:
+				rr.OK(key, in.Pos(), "handler loaded per message under c.mu (in helper %s)", FuncName(g))
+			}
+			return
+		}
+		cc := &eff.Call.Call
 		ld, ok := cc.Value.(*ssa.UnOp)
 		base, isH := isLoadOfField(cc.Value, hF)
 		if !ok || !isH || c.Resolve(base) != ssa.Value(m.F.Params[0]) {
